@@ -18,6 +18,7 @@ package ingressanalyzer
 //@ pred designates(sp corev1.ServicePort, req intstr.IntOrString) = (sp.Name != "" && sp.Name == req.StrVal) || sp.Port == req.IntVal
 
 //@ func getPeerAccessPort
+//@   functional accessPortsOf
 //@   ensures [C10] nonempty: (requiredPort.IntVal == 0 && requiredPort.StrVal == "") ==> len(res) == len(actualServicePorts)
 //@   ensures [C10] atmostone: !(requiredPort.IntVal == 0 && requiredPort.StrVal == "") ==> len(res) <= 1
 //@   ensures [C10] ingressdesignated: (!(requiredPort.IntVal == 0 && requiredPort.StrVal == "")
